@@ -40,7 +40,11 @@ import (
 
 // C06External is set by the external test file (package pilosa_test), which can import the
 // protobuf serializer; it contributes the cluster-message cases.
-var C06External func(c *vx.Check)
+var C06External func(c *vx.Check, progDir string)
+
+// C06Progress gives the external file the progress-file writer (dead workers are attributed to the
+// case named in it).
+func C06Progress(dir string) func(s string) { return c06Progress(dir) }
 
 type c06Seed struct {
 	name string
@@ -553,7 +557,7 @@ func TestVerif_C06(t *testing.T) {
 
 	// ---- M: cluster messages (external file) ----------------------------------------------------
 	if C06External != nil {
-		C06External(c)
+		C06External(c, progDir)
 	}
 
 	// dead workers -> attribute to the case in their progress file
